@@ -173,6 +173,7 @@ type quicAttempt struct {
 	ops      []op
 	peer, ip int
 	outbound bool // the gated node dials the remote
+	api      int  // outbound: the call that starts the attempt on the gated swarm (Network.DialPeer / Network.NewStream's implicit dial)
 	wt       bool // over WebTransport (otherwise plain QUIC)
 }
 
@@ -244,6 +245,9 @@ func udpSimnet(t *testing.T, quick, thorough int, withWT bool) {
 		var attempts []quicAttempt
 		for i, n := 0, rapid.IntRange(1, 3).Draw(rt, "nattempts"); i < n; i++ {
 			a := quicAttempt{peer: rapid.IntRange(0, nPeers-1).Draw(rt, "peer"), outbound: rapid.IntRange(0, 2).Draw(rt, "outbound") == 0}
+			if a.outbound {
+				a.api = rapid.SampledFrom([]int{apiDialPeer, apiSwarmNewStream}).Draw(rt, "api")
+			}
 			if i > 0 {
 				a.ops = drawOps(rapid.IntRange(0, 2).Draw(rt, "nops"))
 			}
@@ -336,6 +340,9 @@ func udpSimnet(t *testing.T, quick, thorough int, withWT bool) {
 				}
 				pv, iv := m.peerVerdict(at.peer), m.ipVerdict(ip)
 				what := fmt.Sprintf("attempt %d (outbound=%v, %s): %s remote peer%d at %s; rules after:\n  %s\n", ai, at.outbound, cmName, at.tpt(), at.peer, caddr, strings.Join(hist, "\n  "))
+				if at.outbound {
+					what = fmt.Sprintf("attempt %d (outbound, started through %s with no connection in place, %s): %s remote peer%d at %s; rules after:\n  %s\n", ai, apiNames[at.api], cmName, at.tpt(), at.peer, caddr, strings.Join(hist, "\n  "))
+				}
 				var opened0 int64
 				if srv.scopes != nil {
 					opened0 = srv.scopes.Load()
@@ -344,7 +351,7 @@ func udpSimnet(t *testing.T, quick, thorough int, withWT bool) {
 				var derr error
 				if at.outbound {
 					srv.ps.AddAddr(rid.ID, caddr, time.Hour)
-					_, derr = srv.sw.DialPeer(ctx, rid.ID)
+					derr = startOutbound(ctx, at.api, srv.sw, nil, rid.ID).err
 				} else {
 					cli.ps.AddAddr(srv.sw.LocalPeer(), saddr, time.Hour)
 					_, derr = cli.sw.DialPeer(ctx, srv.sw.LocalPeer())
@@ -373,7 +380,7 @@ func udpSimnet(t *testing.T, quick, thorough int, withWT bool) {
 					}
 					if at.outbound {
 						if derr == nil {
-							rt.Fatalf("%sDialPeer succeeded towards a blocked remote", what)
+							rt.Fatalf("%s%s succeeded towards a blocked remote", what, apiNames[at.api])
 						}
 						if len(cevs) != 0 {
 							rt.Fatalf("%sthe blocked remote saw an inbound connection from the gated node: the transport dialled", what)
@@ -396,6 +403,9 @@ func udpSimnet(t *testing.T, quick, thorough int, withWT bool) {
 				labels[dir] = true
 				labels[cmName] = true
 				labels[fmt.Sprintf("%s/%s/%s/%s", at.tpt(), dir, cmName, class)] = true
+				if at.outbound {
+					labels[fmt.Sprintf("outbound via:%s/%s", apiNames[at.api], class)] = true
+				}
 				if cfg.quic && cfg.wt {
 					labels["quic+webtransport-on-one-port"] = true
 				}
@@ -420,6 +430,9 @@ func udpSimnet(t *testing.T, quick, thorough int, withWT bool) {
 		fp := w.fingerprint() + fmt.Sprint(v6, reopen, cfg) + strings.Join(hist, ";")
 		for _, a := range attempts {
 			fp += fmt.Sprintf("|%d@%s/%v/%s", a.peer, w.ips[a.ip], a.outbound, a.tpt())
+			if a.outbound {
+				fp += "/" + apiNames[a.api]
+			}
 		}
 		stats.Case(name, fp, nontrivial, ls...)
 		if stats.WantSample(name) {
